@@ -617,7 +617,36 @@ fn classify_exit(st: &std::process::ExitStatus, stderr: &str) -> &'static str {
     }
 }
 
+/// Fail-fast bookkeeping, shared by all shards: confirmed hangs and deaths per (parser, delivery).
+/// On a healthy tree both stay 0 and nothing below ever triggers.  Once a (parser, delivery) has HANG_LIMIT logged
+/// timeouts (or DEATH_LIMIT logged aborts / stack overflows / allocation failures), its remaining inputs are not
+/// run (they are counted as `skipped`): the violation is established and reported with the inputs found so far, and
+/// every further hang would cost a watchdog period.  The first hang of a (parser, delivery) is confirmed with the
+/// full escalation (5 s, 15 s, 30 s); later ones count after the first watchdog step.
+static FATALS: std::sync::Mutex<Option<std::collections::HashMap<(&'static str, &'static str), (u64, u64)>>> = std::sync::Mutex::new(None);
+const HANG_LIMIT: u64 = 5;
+const DEATH_LIMIT: u64 = 50;
+
+fn fatals_of(p: &'static str, d: &'static str) -> (u64, u64) {
+    FATALS.lock().ok().and_then(|g| g.as_ref().and_then(|m| m.get(&(p, d)).copied())).unwrap_or((0, 0))
+}
+fn note_fatal(p: &'static str, d: &'static str, hang: bool) {
+    if let Ok(mut g) = FATALS.lock() {
+        let e = g.get_or_insert_with(Default::default).entry((p, d)).or_insert((0, 0));
+        if hang {
+            e.0 += 1;
+        } else {
+            e.1 += 1;
+        }
+    }
+}
+fn given_up(p: &'static str, d: &'static str) -> bool {
+    let (h, k) = fatals_of(p, d);
+    h >= HANG_LIMIT || k >= DEATH_LIMIT
+}
+
 struct ShardOut {
+    skipped: std::collections::BTreeMap<String, u64>,
     records: u64,
     restarts: u64,
     by_outcome: std::collections::BTreeMap<String, u64>,
@@ -643,7 +672,7 @@ fn run_shard(
     keep: usize,
 ) -> ShardOut {
     let mut log = std::io::BufWriter::with_capacity(1 << 20, std::fs::File::create(&log_path).expect("log file"));
-    let mut out = ShardOut { records: 0, restarts: 0, by_outcome: Default::default(), max_kib_over_len: (0, 0, 0), not_total: Vec::new(), max_us: 0, ok_hashes: Default::default() };
+    let mut out = ShardOut { skipped: Default::default(), records: 0, restarts: 0, by_outcome: Default::default(), max_kib_over_len: (0, 0, 0), not_total: Vec::new(), max_us: 0, ok_hashes: Default::default() };
     let mut pending: VecDeque<Item> = VecDeque::new(); // sent to the current worker, unanswered (front = in flight)
     let mut resend: VecDeque<Item> = VecDeque::new(); // must be sent again to the next worker
     let mut gen: u64 = 0; // worker generation of this shard
@@ -730,6 +759,10 @@ fn run_shard(
                     }
                 }
             };
+            if it.retried == 0 && given_up(it.case.p, it.d) {
+                *out.skipped.entry(format!("{}/{}", it.case.p, it.d)).or_insert(0) += 1;
+                continue;
+            }
             let line = format!("{} {} {} {} {}\n", it.case.id, it.case.p, it.d, it.limit_ms, hex_encode(&it.case.bytes));
             let ok = wp.stdin.as_mut().unwrap().write_all(line.as_bytes()).is_ok();
             pending.push_back(it);
@@ -757,13 +790,17 @@ fn run_shard(
             let o = v["o"].as_str().unwrap_or("?").to_string();
             last_terminal = o == "timeout" || o == "oom";
             fatal_logged = last_terminal;
-            if o == "timeout" && it.retried < 2 {
-                // escalating waits (5 s, 20 s, 60 s): run it again at the head of a fresh worker with a longer limit;
-                // only the third timeout is logged (the restarts in between are declared in the log as `rt`)
-                let factor = if it.retried == 0 { 4 } else { 3 };
+            if o == "timeout" && it.retried < 2 && fatals_of(it.case.p, it.d).0 == 0 {
+                // escalating waits (5 s, 15 s, 30 s): run it again at the head of a fresh worker with a longer limit;
+                // only the third timeout is logged (the restarts in between are declared in the log as `rt`).  Once
+                // this (parser, delivery) has a confirmed hang, later timeouts count after the first step.
+                let factor = if it.retried == 0 { 3 } else { 2 };
                 retry_item = Some(Item { case: it.case.clone(), d: it.d, limit_ms: it.limit_ms * factor, retried: it.retried + 1 });
                 fatal_logged = false;
                 continue;
+            }
+            if o == "timeout" || o == "oom" {
+                note_fatal(it.case.p, it.d, o == "timeout");
             }
             write_rec(&it, &o, v["kib"].as_u64().unwrap_or(0), v["big"].as_u64().unwrap_or(0), v["cls"].as_str().unwrap_or(""),
                       v["at"].as_str().unwrap_or(""), v["us"].as_u64().unwrap_or(0), "worker", gen, rt, &mut n, &mut out);
@@ -787,6 +824,7 @@ fn run_shard(
                     "self-timeout" | "self-oom" => "abort", // exit code without its record: treat as death
                     x => x,
                 };
+                note_fatal(it.case.p, it.d, false);
                 write_rec(&it, o, KIB_SAT, KIB_SAT, "", stderr.lines().last().unwrap_or(""), 0, "sup", gen, rt, &mut n, &mut out);
                 fatal_logged = true;
             }
@@ -895,12 +933,16 @@ fn supervisor(args: &[String]) {
     let mut worst = (0u64, 1u64, 0u64);
     let mut max_us = 0;
     let mut accepted: u64 = 0;
+    let mut skipped: std::collections::BTreeMap<String, u64> = Default::default();
     for h in handles {
         let o = h.join().expect("shard thread");
         records += o.records;
         restarts += o.restarts;
         for (k, v) in o.by_outcome {
             *by_outcome.entry(k).or_insert(0) += v;
+        }
+        for (k, v) in o.skipped {
+            *skipped.entry(k).or_insert(0) += v;
         }
         not_total.extend(o.not_total);
         accepted += o.ok_hashes.len() as u64;
@@ -910,11 +952,12 @@ fn supervisor(args: &[String]) {
         }
         max_us = max_us.max(o.max_us);
     }
+    let skipped_total: u64 = skipped.values().sum();
     let _ = std::fs::remove_dir_all(&cwd);
     hv::util::out_line(&json!({
         "summary": true, "inputs": inputs, "distinct_inputs": distinct.len(), "distinct_nontrivial": structured.len(),
         "accepted_by_shard_sum": accepted, "items": items, "records": records,
-        "worker_restarts": restarts, "by_outcome": by_outcome, "by_family": by_family, "not_total": not_total,
+        "worker_restarts": restarts, "skipped": skipped, "skipped_total": skipped_total, "by_outcome": by_outcome, "by_family": by_family, "not_total": not_total,
         "worst_kib": {"kib": worst.0, "bound_kib": worst.1, "id": worst.2}, "max_call_us": max_us, "max_input_len": maxlen,
         "shards": shards, "rlimit_mb": rlimit_mb, "stack_kib": stack_kib, "watchdog_ms": watchdog,
         "wall_s": t0.elapsed().as_secs_f64(), "samples": samples,
